@@ -595,6 +595,10 @@ class RelayWorld(object):
       self.advance(op[1])
     elif k == 'stop':
       self.do_stop()
+    elif k == 'flood':
+      for i in range(op[1]):
+        self.arrive('fl%d.x' % i, (1000000.0 + i, float(-i - 1)))
+      self.ctx.probe('deep_backlog_flood')
     elif k == 'file':
       from . import boot
       boot.write_file(op[1], op[2], int(self.r.seconds()) + 1)
@@ -706,7 +710,8 @@ class RelayWorld(object):
           t.peer_read()
     self.end_event('heal')
     lim = 0
-    while lim < 400:
+    cap = 400 + 2 * sum(len(d.factory.queue) for d in self.dests.values())
+    while lim < cap:
       lim += 1
       self.begin_event()
       dead = set(self.order[i % len(self.order)] for i in self.plan.get('dead', []))
